@@ -44,7 +44,7 @@ use std::{
 
 use emit::{
     runtime::{AmbientRuntime, AmbientSlot},
-    Clock, Ctxt, Emitter, Filter, Props, Str, Timestamp, Value,
+    Clock, Ctxt, Emitter, Filter, Props, SpanId, Str, Timestamp, TraceId, Value,
 };
 use vcommon::*;
 
@@ -145,48 +145,82 @@ struct TCtxt {
     tag: u64,
 }
 
-struct Who(u64);
+/// What a frame of the tagged ctxt carries: the few properties the oracle looks at.
+#[derive(Clone, Default)]
+struct Carried {
+    id: Option<u64>,
+    trace: Option<TraceId>,
+    span: Option<SpanId>,
+}
+
+struct TFrame {
+    /// the tag of the ctxt that opened the frame
+    tag: u64,
+    carried: Carried,
+}
+
+thread_local! {
+    static ENTERED: RefCell<Vec<Carried>> = const { RefCell::new(Vec::new()) };
+}
+
+struct Who {
+    tag: u64,
+    carried: Carried,
+}
 
 impl Props for Who {
     fn for_each<'kv, F: FnMut(Str<'kv>, Value<'kv>) -> ControlFlow<()>>(&'kv self, mut for_each: F) -> ControlFlow<()> {
-        for_each(Str::new("who"), Value::from(self.0))
+        for_each(Str::new("who"), Value::from(self.tag))?;
+        if let Some(id) = self.carried.id {
+            for_each(Str::new("id"), Value::from(id))?;
+        }
+        if let Some(t) = &self.carried.trace {
+            for_each(Str::new("trace_id"), Value::from_any(t))?;
+        }
+        if let Some(s) = &self.carried.span {
+            for_each(Str::new("span_id"), Value::from_any(s))?;
+        }
+        ControlFlow::Continue(())
+    }
+}
+
+impl TCtxt {
+    fn audit(&self, frame: &TFrame) {
+        used(CTXT, self.tag);
+        if frame.tag != self.tag {
+            LOG.with(|l| l.borrow_mut().foreign_frames += 1);
+        }
     }
 }
 
 impl Ctxt for TCtxt {
     type Current = Who;
-    /// the tag of the ctxt that opened the frame
-    type Frame = u64;
+    type Frame = TFrame;
 
-    fn open_root<P: Props>(&self, _: P) -> u64 {
+    // `open_push` is the trait's default: `open_root(props + current)`
+    fn open_root<P: Props>(&self, props: P) -> TFrame {
         used(CTXT, self.tag);
-        self.tag
+        TFrame { tag: self.tag, carried: Carried { id: props.pull("id"), trace: props.pull("trace_id"), span: props.pull("span_id") } }
     }
 
-    fn enter(&self, frame: &mut u64) {
-        used(CTXT, self.tag);
-        if *frame != self.tag {
-            LOG.with(|l| l.borrow_mut().foreign_frames += 1);
-        }
+    fn enter(&self, frame: &mut TFrame) {
+        self.audit(frame);
+        ENTERED.with(|e| e.borrow_mut().push(frame.carried.clone()));
     }
 
     fn with_current<R, F: FnOnce(&Who) -> R>(&self, with: F) -> R {
         used(CTXT, self.tag);
-        with(&Who(self.tag))
+        let carried = ENTERED.with(|e| e.borrow().last().cloned()).unwrap_or_default();
+        with(&Who { tag: self.tag, carried })
     }
 
-    fn exit(&self, frame: &mut u64) {
-        used(CTXT, self.tag);
-        if *frame != self.tag {
-            LOG.with(|l| l.borrow_mut().foreign_frames += 1);
-        }
+    fn exit(&self, frame: &mut TFrame) {
+        self.audit(frame);
+        ENTERED.with(|e| e.borrow_mut().pop());
     }
 
-    fn close(&self, frame: u64) {
-        used(CTXT, self.tag);
-        if frame != self.tag {
-            LOG.with(|l| l.borrow_mut().foreign_frames += 1);
-        }
+    fn close(&self, frame: TFrame) {
+        self.audit(&frame);
     }
 }
 
@@ -353,7 +387,7 @@ fn run_round(r: &mut Report, seed: u64, round: u64, sz: &Sizes) {
     // ---- phase 0: the slot is empty ----
     let mut pre = ActorOut { role: "round-thread", idx: 0, tag: 0, used_init_slot: false, attempt: None, steps: Vec::new(), emissions: Vec::new(), log: ThreadLog::default() };
     let mut pre_g = Rng::new(actor_seeds[n_init + n_obs]);
-    let mut next_id = 1u64 << 40;
+    let mut next_id = 200u64 << 40;
     for _ in 0..4 {
         step(&slot, &mut pre_g, &mut next_id, &mut pre.steps, &mut pre.emissions);
     }
@@ -447,7 +481,7 @@ fn run_round(r: &mut Report, seed: u64, round: u64, sz: &Sizes) {
 
     // ---- phase 2: after the race, on the round thread ----
     let mut post = ActorOut { role: "round-thread", idx: 1, tag: 0, used_init_slot: false, attempt: None, steps: Vec::new(), emissions: Vec::new(), log: ThreadLog::default() };
-    let mut next_id = (1u64 << 40) + 1000;
+    let mut next_id = (200u64 << 40) + 1000;
     for _ in 0..3 {
         step(&slot, &mut pre_g, &mut next_id, &mut post.steps, &mut post.emissions);
     }
